@@ -129,7 +129,7 @@ def _worker(case, extdir, conn):
 
 def run_cases(cases, extdir, nproc=16, hard_factor=2.0):
     ctx = mp.get_context('fork')
-    pending = sorted(cases, key=lambda c: -c.budget_s * c.weight)
+    pending = sorted(cases, key=lambda c: -c.weight)
     running = []; results = []
     while pending or running:
         while pending and len(running) < nproc:
